@@ -40,7 +40,7 @@ ANNOTATIONS = ["## forward ##", "## backward ##", "my_region", "train_step"]
 @dataclass
 class Profile:
     name: str = "default"
-    tmax_choices: Tuple[int, ...] = (6, 12, 24, 40, 200, 5000)
+    tmax_choices: Tuple[int, ...] = (6, 12, 24, 40, 110, 200, 5000, 40000)
     epoch_choices: Tuple[int, ...] = (0, 0, 1000000, 1700000000000000)
     n_ranks: Tuple[int, int] = (1, 1)
     n_steps: Tuple[int, int] = (0, 0)           # ProfilerStep annotations on the main thread
@@ -122,7 +122,13 @@ class Gen:
         for n in forest:
             leaf = not n["children"]
             ev: Dict[str, Any] = {"ph": "X", "pid": pid, "tid": tid, "ts": n["ts"], "dur": n["dur"]}
-            if leaf and rng.random() < p.p_launch and p.device != "none":
+            if leaf and n["dur"] > 0 and rng.random() < p.p_sync * 0.3:
+                ev["cat"] = "cuda_runtime"
+                ev["name"] = rng.choice(["cudaDeviceSynchronize", "cudaStreamSynchronize"])
+                ev["args"] = {"correlation": self.next_corr, "External id": self.next_ext}
+                ev["_sync"] = True
+                self.next_corr += 1
+            elif leaf and rng.random() < p.p_launch and p.device != "none":
                 mem = rng.random() < p.p_mem_launch
                 ev["cat"] = "cuda_runtime" if rng.random() < 0.85 else "cuda_driver"
                 ev["name"] = rng.choice(LAUNCH_MEM_NAMES if mem else LAUNCH_KERNEL_NAMES)
@@ -137,6 +143,8 @@ class Gen:
                     ev["args"] = {"External id": self.next_ext}
                     if rng.random() < 0.3:
                         ev["args"]["Input Dims"] = [[2, 3], []]
+                    if p.allow_host_stream_arg and rng.random() < 0.15:
+                        ev["args"]["stream"] = rng.choice(["cpu", "N/A", ""])
                 elif r < 0.8:
                     ev["cat"] = "user_annotation"
                     ev["name"] = rng.choice(ANNOTATIONS)
@@ -271,6 +279,17 @@ class Gen:
                 corr = self.next_corr
                 self.next_corr += 1
                 dev.append(mk_kernel(ts, dur, s, corr, rng.random() < 0.25))
+        for e in host:
+            if e.get("_sync"):
+                a = rng.randint(e["ts"], e["ts"] + e["dur"])
+                b = rng.randint(a, e["ts"] + e["dur"])
+                if e["name"] == "cudaDeviceSynchronize":
+                    dev.append({"ph": "X", "cat": "cuda_sync", "name": "Context Sync", "pid": gpu_pid, "tid": 0, "ts": a, "dur": b - a,
+                                "args": {"cuda_sync_kind": "Context Sync", "stream": -1, "correlation": e["args"]["correlation"], "External id": e["args"]["External id"]}})
+                else:
+                    s_ = rng.choice(streams)
+                    dev.append({"ph": "X", "cat": "cuda_sync", "name": "Stream Sync", "pid": gpu_pid, "tid": s_, "ts": a, "dur": b - a,
+                                "args": {"cuda_sync_kind": "Stream Sync", "stream": s_, "correlation": e["args"]["correlation"], "External id": e["args"]["External id"]}})
         if rng.random() < p.p_gpu_annotation and dev:
             s = rng.choice(streams)
             a = rng.randint(0, T)
@@ -279,6 +298,7 @@ class Gen:
                         "args": {"stream": s}})
         for e in host:
             e.pop("_launch", None)
+            e.pop("_sync", None)
         events = host + dev
         # first entry: host operator without correlation
         first = {"ph": "X", "cat": "cpu_op", "name": "aten::zeros", "pid": host_pid, "tid": 77777,
@@ -394,3 +414,5 @@ _reg(Profile(name="comm_overlap", device="free", n_free_kernels=(2, 12), tmax_ch
              kernel_names=("ncclKernel_AllReduce_RING_LL_Sum_float(ncclWorkElem)", "ncclDevKernel_AllGather_RING", "nccl:all_reduceKernel",
                            "ampere_sgemm_128x64_nn", "elementwise", "ncclFoo", "xMemcpy", "Memcpy DtoD (Device -> Device)", "barSync",
                            "sm80_xmma_gemm", "ncclKernel_x")))
+_reg(Profile(name="loader_mix", n_steps=(0, 3), n_ranks=(1, 3), p_nonevents=0.9, p_string_pid_span=0.6, p_missing_kernel=0.2, p_orphan_kernel=0.3,
+             p_sync=0.5, allow_host_stream_arg=True))
